@@ -2137,39 +2137,44 @@ class NLProblemBuilder {
     int k=0;                             // current block position
     const int num_nl_vars = std::max(h.num_nl_vars_in_cons,
                                      h.num_nl_vars_in_objs);
+    // Header counts are untrusted: do the arithmetic in 64 bits, DoAddVars
+    // rejects negative or overflowing block sizes.
+    typedef long long LL;
     if (num_nl_vars) {
-      DoAddVars(h.num_nl_vars_in_both - h.num_nl_integer_vars_in_both,
+      DoAddVars(LL(h.num_nl_vars_in_both) - h.num_nl_integer_vars_in_both,
               var::CONTINUOUS, k);
       DoAddVars(h.num_nl_integer_vars_in_both,
               var::INTEGER, k);
-      DoAddVars(h.num_nl_vars_in_cons -
-              (h.num_nl_vars_in_both + h.num_nl_integer_vars_in_cons),
+      DoAddVars(LL(h.num_nl_vars_in_cons) -
+              (LL(h.num_nl_vars_in_both) + h.num_nl_integer_vars_in_cons),
               var::CONTINUOUS, k);
       DoAddVars(h.num_nl_integer_vars_in_cons,
               var::INTEGER, k);
       int num_nl_vars_in_objs_only =
           std::max(0, h.num_nl_vars_in_objs - h.num_nl_vars_in_cons);
       if (num_nl_vars_in_objs_only) {
-        DoAddVars(num_nl_vars_in_objs_only - h.num_nl_integer_vars_in_objs,
+        DoAddVars(LL(num_nl_vars_in_objs_only) - h.num_nl_integer_vars_in_objs,
                 var::CONTINUOUS, k);
         DoAddVars(h.num_nl_integer_vars_in_objs,
                 var::INTEGER, k);
       }
     }
     MP_ASSERT_ALWAYS(num_nl_vars == k, "NLProblemBuilder: num_nl_vars mismatch");
-    DoAddVars(h.num_vars -
-            (num_nl_vars +
+    DoAddVars(LL(h.num_vars) -
+            (LL(num_nl_vars) +
              h.num_linear_integer_vars + h.num_linear_binary_vars),
             var::CONTINUOUS, k);
-    DoAddVars(h.num_linear_integer_vars + h.num_linear_binary_vars,
+    DoAddVars(LL(h.num_linear_integer_vars) + h.num_linear_binary_vars,
             var::INTEGER, k);
     MP_ASSERT_ALWAYS(h.num_vars == k, "NLProblemBuilder: num_vars mismatch");
   }
 
   /// DoAddVars: update counter \a k
-  void DoAddVars(int n, var::Type t, int& k) {
-    builder_.AddVars(n, t);
-    k += n;
+  void DoAddVars(long long n, var::Type t, int& k) {
+    MP_ASSERT_ALWAYS(n >= 0 && n <= std::numeric_limits<int>::max() - k,
+                     "NLProblemBuilder: inconsistent variable counts");
+    builder_.AddVars(static_cast<int>(n), t);
+    k += static_cast<int>(n);
   }
 
   /// objno(). virtual, so that SolverNLHandler can override
